@@ -314,7 +314,7 @@ func (d *alertDriver) setData(target []float64) error {
 		if len(pts) > 0 {
 			b, _ := json.Marshal(pts)
 			var r metricsPutResult
-			if err := d.c.Call(&sut.Req{Op: "c20.metricsPut", Org: d.cs.Org, Body: b, }, &r); err != nil {
+			if err := d.c.Call(&sut.Req{Op: "c20.metricsPut", Org: d.cs.Org, Body: b}, &r); err != nil {
 				return d.wrap("metrics put", err)
 			}
 			if r.Err != "" || r.Failed != 0 || int(r.Processed) != len(pts) {
@@ -1014,6 +1014,5 @@ func fmtOutcomes(b []bool) string {
 	}
 	return sb.String()
 }
-
 
 func TestC20Alert(t *testing.T) { pt.RunProp(t, "C20", genAlertCase, checkAlert) }
